@@ -56,6 +56,17 @@ impl AtomicSignal {
     }
 }
 
+#[cfg(multiqueue2_verif)]
+impl AtomicSignal {
+    pub fn verif_raw(&self) -> usize {
+        self.flags.raw()
+    }
+
+    pub fn verif_addr(&self) -> usize {
+        &self.flags as *const AtomicUsize as usize
+    }
+}
+
 impl LoadedSignal {
     #[inline(always)]
     pub fn has_action(&self) -> bool {
